@@ -86,6 +86,21 @@ CLAIMED = {
             "Every training run of every case is judged on its own by replaying the table against recounted statistics; counting schedules are whatever the OS produces for 0-32 threads on contention-heavy corpora. Held on the trainings listed in the evidence.",
             "trusted: the harness recount (split_whitespace words, leading space from the second word on) on NFKC-stable text; ties may be broken either way.",
             "DESIGN.md 6/C19"),
+    "C10": ("exploration",
+            "inverse-law and preservation oracle on the real whitespace::{operations,repair}: generated pairs of re-spacings (both directions), arbitrary strings x arbitrary operation sequences (non-whitespace content preserved, all-Keep identity, length mismatch is Err); Miri lane in thorough",
+            "Every generated pair / (string, ops) runs the real functions and is judged by the inverse law and the preservation clause; held on the executions listed in the evidence (10^6 per quick run).",
+            "trusted: unicode-segmentation; strings with clusters that mix whitespace and other code points are outside the quantifier (no-panic only).",
+            "DESIGN.md 6/C10"),
+    "C11": ("exploration",
+            "differential runtime oracle: real clean / word_boundaries / remove / full vs references built only on char::is_whitespace and split_whitespace, over every Unicode White_Space code point and look-alikes; Miri lane in thorough",
+            "Every generated string is judged against the split-join normal form, idempotence, and independently scanned word ranges; held on the executions listed in the evidence.",
+            "trusted: char::is_whitespace as the definition of whitespace; unicode-segmentation in grapheme mode.",
+            "DESIGN.md 6/C11"),
+    "C14": ("exploration",
+            "runtime oracle on the real WhitespaceCorruption preprocessing and the whitespace-correction task: untouched part identical, non-whitespace sequence preserved, output clean, operations/repair recover the original, label count and values, determinism per (text, seed) across two separately built functions, probability-0 clauses",
+            "Every generated (clean text, probabilities, seed, tokenizer config) runs the real preprocessing and task functions; held on the executions listed in the evidence.",
+            "trusted: the harness's independent code-point alignment for counting insertions / deletions; unicode-segmentation.",
+            "DESIGN.md 6/C14"),
 }
 
 PENDING_REASON = "monitor not built yet in this session (planned in DESIGN.md section 6); not claimed until its check exists and is silent on the unchanged tree"
